@@ -43,7 +43,7 @@ def load_prop(pid):
     return importlib.import_module(f'simkit.props.{pid}')
 
 
-class RunTimeout(Exception):
+class RunTimeout(BaseException):
     pass
 
 
@@ -242,7 +242,7 @@ def shrink_inner(pid, path):
     sig = rp['sig']
 
     def fails(run):
-        res = execute_run(prop, run, prop.RUN_TIMEOUT * 2)
+        res = execute_run(prop, run, prop.RUN_TIMEOUT)
         if res['harness_error']:
             return None
         for v in res['violations']:
